@@ -29,6 +29,7 @@ class S(vlib.Spec):
         15: "a path going on below a struct star was accepted",
         16: "a well-typed conflict-free path list was rejected",
         17: "the string key * is read back from JSON as the any-star",
+        18: "bytes returned by Marshal/MarshalJSON changed after later operations (history)",
     }
     classes = {
         3: "C14-star-resets-explicit-keys", 4: "C14-black-tail-star-passes", 5: "C14-black-prefix-path-passes",
@@ -36,6 +37,7 @@ class S(vlib.Spec):
         14: "C14-union-field-unselectable", 15: "C14-struct-star-continuation", 17: "C14-json-key-star-becomes-any",
         2: "C14-query-disagrees-with-path-set", 6: "C14-json-round-trip-changes-answers",
         11: "C14-order-or-grouping-dependence", 12: "C14-panic", 13: "C14-hang", 16: "C14-valid-list-rejected",
+        18: "C14-json-text-not-stable-over-history",
     }
     modelled = ("fieldmask/path.go: pathIterator.Next/lit/str, newPathToken -> coq/Mask/Path.v; "
                 "fieldmask/utils.go: switchFt, unwrapDesc (typedefs looked through) -> coq/Mask/Desc.v; "
